@@ -556,6 +556,15 @@ def discharge(site, fx, policy):
             r = pos_over_same(x, pos, fam)
             if r:
                 return "D-pos-slice: " + r
+            # fixed array split at a value with a proven upper bound <= its length
+            xt = F.strip(x)
+            while xt.get("k") in ("Borrow", "Deref"):
+                xt = F.strip(xt["e"])
+            m_ = re.match(r"^&?\[.*; (\d+)\]$", xt.get("ty", "") or "")
+            if m_:
+                ub = upper_bound(pos, fam)
+                if ub is not None and ub <= int(m_.group(1)):
+                    return "D-range-bound: split point <= %d <= array length %s (value-range of the bound)" % (ub, m_.group(1))
             for f, pol in get_facts():
                 f = F.strip(f)
                 # not (len(x) < pos)
@@ -1019,6 +1028,16 @@ def upper_bound(n, fam, depth=0):
         return max(out)
     if k == "Cast":
         return upper_bound(n["e"], fam, depth + 1)
+    if k == "Call" and "fn" in n and depth < 4:
+        # a private helper of the crate: the bound of its result expression (e.g. `fn padding_len(n) -> usize { n.wrapping_neg() % 8 }`)
+        fx_ = fam.fx
+        tgt = fx_.by_dp.get(n["fn"].get("dp"))
+        hb = fx_.bodies.get(tgt) if tgt else None
+        if hb is not None and hb["krate"] == "proguard" and hb.get("kind") in ("Fn", "AssocFn"):
+            tail = F.strip(hb["body"])
+            while tail.get("k") == "Block" and tail.get("tail") is not None and not any(s_["k"] != "Let" for s_ in tail.get("stmts", [])):
+                tail = F.strip(tail["tail"])
+            return upper_bound(tail, family_of(fx_, hb), depth + 1)
     return None
 
 
